@@ -14,7 +14,8 @@ CLAIMS = {
     "C09": {
         "text": "Interprocedural may-raise analysis (taint from data_received through the queue, value kinds, length facts incl. the V3 "
                 "producer invariant, environment raisers) shows that for every peer byte sequence the exception classes escaping "
-                "LAN.send / LAN.authenticate / Device.authenticate / Device._send_command stay inside the allowed sets. "
+                "LAN.send / LAN.authenticate / Device.authenticate / Device._send_command stay inside the allowed sets (a function re-entering "
+                "itself on a peer-selected path is a RecursionError raiser). "
                 "Over-approximates paths (no feasibility reasoning), so 'holds' covers all inputs; library behaviour comes from a frozen model.",
         "note": TRUST + "library model sa/libmodel.py; unknown library calls on tainted data are assumed benign and listed in the evidence",
         "technique": "taint + length-fact + may-raise effect analysis over the call graph (static analysis)",
@@ -22,7 +23,7 @@ CLAIMS = {
     "C14": {
         "text": "Same effect analysis with source = every byte string Device._send_command can return (any length, any content): the "
                 "may-raise set of refresh/apply/get_capabilities/toggle_display/start_self_clean is empty, and the per-frame try/except "
-                "sits inside the frame loop and continues. Every constant-index subscript, struct.unpack, enum construction and "
+                "sits inside the frame loop and continues; no mutable class-level object is shared between response objects. Every constant-index subscript, struct.unpack, enum construction and "
                 "explicit raise on response data is an examined site (proved by a length/membership fact or contained by a handler).",
         "note": TRUST + "library model sa/libmodel.py",
         "technique": "taint + length-fact + may-raise effect analysis over the call graph (static analysis)",
@@ -56,7 +57,8 @@ CLAIMS = {
         "text": "The byte layout of _Packet.encode is derived from the source as a sequence of segments with affine lengths and compared "
                 "with the stated V2 format (marker, type, LE16 total length = actual length, magic, 8-byte timestamp, LE64 id at 20, "
                 "40-byte header, AES-ECB(PKCS7(command)), MD5(everything before ‖ key)); the decoder's ranges, byte order and inverse "
-                "transform agree with it; key/mode/block pairing by constant folding; every emitted byte is interval-bounded. Holds "
+                "transform agree with it; key/mode/block pairing by constant folding; every emitted byte is interval-bounded; no packet byte is "
+                "left in a buffer the next call reuses (held-buffer mutation on value-flow terms). Holds "
                 "for all frames, ids and timestamps at once because lengths and values are symbolic.",
         "note": TRUST + "AES-128-ECB / PKCS7 / MD5 implementations",
         "technique": "byte-sequence layout + affine length + interval abstract domains over value-flow terms (static analysis)",
@@ -91,7 +93,8 @@ CLAIMS = {
         "text": "SetStateCommand.tobytes is interpreted abstractly in a bit-field / linear-form domain over the declared domains of all "
                 "16 settable fields at once (guard regions for the set-point and half-degree flag are abstract elements); the vendor "
                 "reference decode applied to the abstract 24-byte body returns every source field (left inverse ⇒ distinct states give "
-                "distinct bodies); no bit collisions, no lossy masks, every byte ≤ 255. All 62 set-points × modes × flags are one abstract state.",
+                "distinct bodies); no bit collisions, no lossy masks, every byte ≤ 255; the def-use chain setter → attribute → apply → command "
+                "attribute passes every requested value unchanged. All 62 set-points × modes × flags are one abstract state.",
         "note": TRUST + "transcription of the vendor layout rows (each cites its Lua line, constants re-read from the Lua)",
         "technique": "abstract interpretation in a bit-field/interval/affine domain with trace partitioning (static analysis)",
     },
@@ -109,7 +112,8 @@ CLAIMS = {
                 "sequence of read outcomes (ok / timeout / protocol error / cancellation): transmissions ∈ [1,R], no retransmission after "
                 "a response, R timeouts ⇒ TimeoutError after exactly R transmissions, every failure exit disconnects first and leaves as "
                 "timeout/protocol error; plus must-pass-through reconnect in send, _disconnect/_connect/_alive/alive/write facts from "
-                "value-flow terms and the may-raise analysis with environment raisers for connect failures and Device._send_command.",
+                "value-flow terms and the may-raise analysis with environment raisers for connect failures and Device._send_command; the "
+                "reassembly premises of C04 (every response that arrives is delivered) are re-run as premises.",
         "note": TRUST + "timing relative to the 2 s read timeout and success of the following exchange on a real socket are not decided",
         "technique": "conditional-constant exploration of retry-loop automata + must-pass-through + may-raise effects (static analysis)",
     },
@@ -132,9 +136,10 @@ CLAIMS = {
     },
     "C17": {
         "text": "Each reported identity field is traced through value-flow terms to the byte range / byte order it is read from (id LE at 20, "
-                "body [40:-16], port [4:6] LE, sn [8:40], name [41:41+n], type from the name) and compared with the reply format; ip comes "
+                "body [40:-16], port [4:6] LE unsigned, sn [8:40], name [41:41+n], type from the name) and compared with the reply format; ip comes "
                 "from the datagram source and version from the detected version; Device stores and returns every field unchanged; version "
-                "and class dispatch tables; DISCOVERY_MSG folds to a self-consistent signed 72-byte packet sent to 6445/20086.",
+                "and class dispatch tables; DISCOVERY_MSG folds to a self-consistent signed 72-byte packet sent to 6445/20086; the per-host "
+                "containment obligations of C18 are re-run as premises (another host's reply cannot abort the run).",
         "note": TRUST + "the reply format table (matches the two captured replies pinned by the tests)",
         "technique": "value-flow range/provenance analysis + constant folding (static analysis)",
     },
@@ -161,7 +166,8 @@ CLAIMS = {
                 "and the public getter; must/may event analysis of apply shows the write is sent exactly once per non-empty change set and "
                 "the set is cleared after props was computed on every sending completion; PropertyId.encode/decode layouts match the vendor "
                 "value encodings (ids and lengths re-read from the Lua); the response parser advances 4+len per record; breeze exclusivity "
-                "and BREEZE_CONTROL precedence from the gated terms; response handlers store backing fields, never the recording setters.",
+                "and BREEZE_CONTROL precedence from the gated terms; response handlers store backing fields, never the recording setters; "
+                "BreezeMode members carry the vendor's values (bounds re-read from the Lua).",
         "note": TRUST + "vendor value encodings (Lua lines cited); read-back equality through a live device is not decided",
         "technique": "def-use chain + must/may event analysis + layout domain + cursor-advance analysis (static analysis)",
     },
